@@ -37,13 +37,13 @@ T = {
          "Theorems (Props/C07.v, premise H a b <> 0 as in Go's memo convention): a second request costs 0 hashes; after one path-copying write with a hashed value at most one hash per level. Correspondence: exact pair-hash counts Go vs heap model (second requests, single mutations incl. through sub-views, expanding appends at limits up to 2^40).",
          "machine-checked proof (Coq) + exact hash-count correspondence"),
  "C08": ("flat Merkleization helpers equal the spec",
-         "Theorems (Props/C08.v, for every H): the streaming Merkleize loop equals merkleize_spec for count <= limit < 2^64; each flat helper equals the spec root of its typed value. Correspondence: all (count,limit) up to 34 (70 thorough), limits 2^k(+-1) up to 2^64-1, generic flat values; Go = model = spec.",
+         "Theorems (Props/C08.v, for every H): the streaming Merkleize loop equals merkleize_spec for count <= limit < 2^64; each flat helper equals the spec root of its typed value, and therefore the Merkle root of every backing that represents the value, in particular of the constructed view (C08_flat_root_is_view_root). Correspondence: all (count,limit) up to 34 (70 thorough), limits 2^k(+-1) up to 2^64-1, generic flat values; Go = model = spec, and flat root = root of the tree-backed view of the same value.",
          "machine-checked proof (Coq) of the transcribed loop + differential correspondence"),
  "C09": ("flat codec encodes spec bytes and round-trips",
          "Theorems (Props/C09.v): flat_enc = spec_ser, flat_len = its length, decoding the encoding into ANY prior destination state returns the value. Correspondence: encode / ByteLength / decode into fresh and reused (shorter, longer) destinations.",
          "machine-checked proof (Coq) + differential correspondence"),
  "C10": ("flat codec decoding is canonical and panic-free",
-         "Theorems (Props/C10.v): flat_decode never panics; accepted inputs of variable-size types are spec_ser of the decoded typed value. Correspondence: exhaustive small strings and corruptions, re-encoding.",
+         "Theorems (Props/C10.v): flat_decode never panics; accepted inputs of variable-size types are spec_ser of the decoded typed value; the flat decoder and the view decoder accept the same byte strings and yield the same value (C10_accepts_what_the_view_decoder_accepts, C10_same_value_as_the_view_decoder). Correspondence: exhaustive small strings and corruptions, re-encoding; a sample of each run is also evaluated inside Coq (extraction cross-check).",
          "machine-checked proof (Coq) + differential correspondence incl. exhaustive small inputs"),
  "C11": ("tree navigation laws",
          "Theorems (Props/C11.v, 40 statements): get-after-set, off-path subtrees unchanged (same ADDRESS on the heap), original unchanged, navigation errors never panics, expansion equivalent to the materialised zero subtree, non-zero summaries refuse expansion, summarising preserves the root, heap path-copy refines the pure setter. Correspondence: all shapes to depth 2 (3 thorough, every 7th) x all indices x ops with pointer identity by canonical numbering; random trees to depth 12, 63-bit indices.",
